@@ -217,6 +217,34 @@ func createLastInsertIDResult(lastInsertID uint64, asName string) *mysql.Result 
 	return ret
 }
 
+// MentionsShardTable tells whether a token of the statement names a table that has a shard rule, however
+// the name is written (letter case, backquotes, schema qualification, glued to a comment, a parenthesis
+// or a comma list, after JOIN). The token checks below only look at the word behind FROM / INTO / UPDATE;
+// a statement for which this returns true must go through the full analysis. A column or alias that
+// happens to carry a sharded table's name only costs that analysis.
+func MentionsShardTable(tokens []string, rt *router.Router) bool {
+	names := make(map[string]struct{})
+	for _, tables := range rt.GetAllRules() {
+		for table := range tables {
+			names[strings.ToLower(table)] = struct{}{}
+		}
+	}
+	if len(names) == 0 {
+		return false
+	}
+	isSep := func(r rune) bool {
+		return r == '.' || r == '`' || r == '(' || r == ')' || r == ';' || r == '*' || r == '=' || r == '<' || r == '>' || r == '!' || r == '+' || r == '-'
+	}
+	for _, token := range tokens {
+		for _, part := range strings.FieldsFunc(strings.ToLower(token), isSep) {
+			if _, ok := names[part]; ok {
+				return true
+			}
+		}
+	}
+	return false
+}
+
 func CheckUnshardBase(tokenId int, tokens []string, rt *router.Router, db string) (string, bool) {
 	ruleDB := db
 	tokensLen := len(tokens)
